@@ -587,9 +587,8 @@ impl Program {
                         offset = 0;
                     }
                     let u = offset;
-                    offset = offset.checked_add(1).expect(
-                        "offset is incremented at most once per 8-bit-char and so cannot exceed 256",
-                    );
+                    // With 256 redirects the last offset is 255 and there is nothing left to address.
+                    offset = offset.saturating_add(1);
                     u
                 }
             };
